@@ -737,7 +737,9 @@ Proof.
   assert (Hnone : forall i, repeat None k0 = map (lbl k i) us -> True) by auto.
   assert (Key : forall i, (i < length owns)%nat ->
             exists y, elem f inplace (nth i owns None) (nth i gs None) = Some y /\ nth_error l' i = Some y).
-  { intros i Hi. eapply mapM_nth_error; [exact Hj|]. now apply nth_error_combine_nth. }
+  { intros i Hi.
+    exact (mapM_nth_error (fun og => elem f inplace (fst og) (snd og)) (combine owns gs) l' i (nth i owns None, nth i gs None) Hj
+             (nth_error_combine_nth owns gs i None None Hi Lg)). }
   split; [assumption|]. split.
   - intros i l E.
     assert (Hi : (i < length owns)%nat) by (rewrite <- Ll; apply nth_error_Some; congruence).
@@ -749,7 +751,7 @@ Proof.
         eapply Hf; eauto.
       * destruct HV as (-> & Hp & Hn). rewrite Hp in Sg1. rewrite Sg1 in Hy1. cbn in Hy1.
         destruct (f _ _) as [rr|] eqn:Ef; [|discriminate]. inversion Hy1; subst.
-        eapply Hf; [exact Ef|reflexivity|]. subst k0. clear -Hn. induction us as [|u us IHu]; cbn; [reflexivity|].
+        eapply Hf; [exact Ef|reflexivity|]. clear -Hn. induction us as [|u us IHu]; cbn; [reflexivity|].
         rewrite (Hn u (or_introl eq_refl)). f_equal. apply IHu. intros u' Hu'. apply Hn. now right.
     + rewrite HV in Sg1. rewrite Sg1 in Hy1. cbn in Hy1. destruct inplace; inversion Hy1.
   - intros i l E.
@@ -758,4 +760,362 @@ Proof.
     unfold elem in Hy1. destruct (nth i gs None) as [g|]; [|discriminate].
     destruct (f g l) as [rr|]; [|discriminate]. inversion Hy1; subst y. eauto.
 Qed.
+Lemma finish_new c s k ess xs t sh l s' : wf_cls c -> Rep c s ess -> (k < length (axs c))%nat ->
+  t = build (upd_all (taxes c k) xs ess) val -> sh = map (@length ent) (upd_all (taxes c k) xs ess) ->
+  length l = length (labs (ax_of s k)) ->
+  (forall j l0, nth_error l j = Some (Some l0) -> l0 = map (lbl k j) xs) ->
+  (forall j l0, nth_error (labs (ax_of s k)) j = Some (Some l0) -> exists l2, nth_error l j = Some (Some l2)) ->
+  construct c sh t (new_axes c s k l) = OK s' ->
+  Rep c s' (upd_all (taxes c k) xs ess) /\ (drop_other c = false -> no_loss s s').
+Proof.
+  intros W R Hk Ht Hsh L1 L2 L3 Hc. apply construct_ok in Hc. subst s'.
+  pose proof (r_nax _ _ _ _ _ R) as Hnax.
+  split.
+  - apply Rep_after_unary with (s := s) (l' := l); try assumption.
+    + unfold new_axes. apply length_map_indexed.
+    + rewrite ax_of_new_axes by (rewrite Hnax; assumption). now rewrite Nat.eqb_refl.
+    + intros k' Hk' Hne. rewrite ax_of_new_axes by assumption.
+      destruct (Nat.eqb k' k) eqn:E; [apply Nat.eqb_eq in E; contradiction|].
+      destruct (drop_other c); [unfold cleared; cbn; apply map_length|reflexivity].
+    + intros k' Hk' Hne j l0. rewrite ax_of_new_axes by assumption.
+      destruct (Nat.eqb k' k) eqn:E; [apply Nat.eqb_eq in E; contradiction|].
+      destruct (drop_other c); [intros E2; destruct (nth_error_cleared _ _ _ E2)|auto].
+  - intros Hdo k' j l0 E.
+    destruct (Nat.lt_ge_cases k' (length (axes s))) as [Hk'|Hk'].
+    + rewrite ax_of_new_axes by assumption. destruct (Nat.eqb k' k) eqn:E2.
+      * apply Nat.eqb_eq in E2; subst k'. cbn. eapply L3; eauto.
+      * rewrite Hdo. eauto.
+    + unfold ax_of in E. rewrite nth_overflow in E by assumption. cbn in E. destruct j; discriminate.
+Qed.
+Lemma finish_set c s k ess xs t sh l : wf_cls c -> Rep c s ess -> (k < length (axs c))%nat ->
+  t = build (upd_all (taxes c k) xs ess) val -> sh = map (@length ent) (upd_all (taxes c k) xs ess) ->
+  length l = length (labs (ax_of s k)) ->
+  (forall j l0, nth_error l j = Some (Some l0) -> l0 = map (lbl k j) xs) ->
+  (forall j l0, nth_error (labs (ax_of s k)) j = Some (Some l0) -> exists l2, nth_error l j = Some (Some l2)) ->
+  let s' := {| shape := sh; data := t; axes := set_axes s k l |} in
+  Rep c s' (upd_all (taxes c k) xs ess) /\ no_loss s s'.
+Proof.
+  intros W R Hk Ht Hsh L1 L2 L3 s'.
+  pose proof (r_nax _ _ _ _ _ R) as Hnax.
+  split.
+  - apply Rep_after_unary with (s := s) (l' := l); try assumption.
+    + unfold set_axes. apply length_map_indexed.
+    + rewrite ax_of_set_axes by (rewrite Hnax; assumption). now rewrite Nat.eqb_refl.
+    + intros k' Hk' Hne. rewrite ax_of_set_axes by assumption.
+      destruct (Nat.eqb k' k) eqn:E; [apply Nat.eqb_eq in E; contradiction|reflexivity].
+    + intros k' Hk' Hne j l0. rewrite ax_of_set_axes by assumption.
+      destruct (Nat.eqb k' k) eqn:E; [apply Nat.eqb_eq in E; contradiction|auto].
+  - intros k' j l0 E.
+    destruct (Nat.lt_ge_cases k' (length (axes s))) as [Hk'|Hk'].
+    + unfold s'. rewrite ax_of_set_axes by assumption. destruct (Nat.eqb k' k) eqn:E2.
+      * apply Nat.eqb_eq in E2; subst k'. cbn. eapply L3; eauto.
+      * eauto.
+    + unfold ax_of in E. rewrite nth_overflow in E by assumption. cbn in E. destruct j; discriminate.
+Qed.
+
+Lemma taxis_of_taxes c k a r : taxes c k = a :: r -> taxis c k = a.
+Proof. unfold taxes, taxis. destruct (nth_error (axs c) k) as [[kd l]|]; [intros ->; reflexivity|discriminate]. Qed.
+Lemma not_square c k a : taxes c k = [a] -> is_square c k = false.
+Proof. unfold is_square. intros ->. reflexivity. Qed.
+
+(** validity of the operand's labels in the form needed by [join_labs_rep] *)
+Lemma RepOpd_valid pols c k s v ess us : Rep c s ess -> (k < length (axs c))%nat ->
+  RepOpd pols c k s v ess us ->
+  forall i, (i < length (labs (ax_of s k)))%nat ->
+     match nth i (labs (ax_of s k)) None, eff_lab c k v i with
+     | Some l, Some g => l = map (lbl k i) (nth (taxis c k) ess []) /\ g = map (lbl k i) us
+     | Some l, None => l = map (lbl k i) (nth (taxis c k) ess []) /\ nth i pols PReq = PFill /\ forall u, In u us -> lbl k i u = None
+     | None, g => g = None
+     end.
+Proof.
+  intros R Hk RO i Hi. pose proof (ro_labs _ _ _ _ _ _ _ RO i Hi) as H.
+  destruct (nth i (labs (ax_of s k)) None) as [l|] eqn:E; [|exact H].
+  assert (El : l = map (lbl k i) (nth (taxis c k) ess [])).
+  { apply (r_labs _ _ _ _ _ R k i l Hk). rewrite <- E. apply nth_error_nth'. assumption. }
+  destruct (eff_lab c k v i); [split; assumption|]. destruct H as [H1 H2]. auto.
+Qed.
+
+Section OneAxis.
+Variables (c : cls) (s : st) (k : nat) (v : operand) (ess : list (list ent)) (us : list ent) (a : nat).
+Hypothesis W : wf_cls c.
+Hypothesis R : Rep c s ess.
+Hypothesis Hk : (k < length (axs c))%nat.
+Hypothesis Ht : taxes c k = [a].
+Let es := nth a ess [].
+
+Lemma a_lt : (a < length ess)%nat.
+Proof. rewrite (r_nd _ _ _ _ _ R). apply (wf_lt c W k). rewrite Ht. now left. Qed.
+Lemma shape_a : nth a (shape s) O = length es.
+Proof. rewrite (r_shape _ _ _ _ _ R). change O with (length (@nil ent)). now rewrite map_nth. Qed.
+
+Lemma cat_data_rep pols : RepOpd pols c k s v ess us ->
+  cat_data c s k v = (build (upd a (es ++ us) ess) val, map (@length ent) (upd a (es ++ us) ess)).
+Proof.
+  intros RO. unfold cat_data. rewrite (not_square c k a Ht), (taxis_of_taxes c k a [] Ht).
+  pose proof a_lt as Ha.
+  rewrite (r_data _ _ _ _ _ R), (ro_data _ _ _ _ _ _ _ RO), (taxis_of_taxes c k a [] Ht), t_cat_build by assumption.
+  f_equal. rewrite shape_a, (ro_shape _ _ _ _ _ _ _ RO), (taxis_of_taxes c k a [] Ht).
+  change O with (length (@nil ent)). rewrite map_nth, nth_upd_eq by assumption.
+  rewrite (r_shape _ _ _ _ _ R), map_upd, app_length. reflexivity.
+Qed.
+
+Theorem adjoin_refines s' : RepOpd (pol_adj (sch c k)) c k s v ess us -> op_adjoin c s k v = OK s' ->
+  Rep c s' (upd a (es ++ us) ess) /\ (drop_other c = false -> no_loss s s').
+Proof.
+  intros RO H. unfold op_adjoin, pre_binary in H. destruct (shapes_compat _ _ _); [|discriminate].
+  destruct (resolve_all _ _ c k v O _) as [gs|] eqn:Er; [|discriminate]. cbn in H.
+  destruct (join_labs _ _ gs) as [l|] eqn:Ej; [|discriminate].
+  rewrite (cat_data_rep _ RO) in H.
+  assert (Hlen : length (pol_adj (sch c k)) = length (labs (ax_of s k))).
+  { rewrite (r_nf _ _ _ _ _ R k Hk). apply pol_lengths. }
+  assert (Hk0 : nth (taxis c k) (o_shape v) O = length us).
+  { rewrite (ro_shape _ _ _ _ _ _ _ RO). change O with (length (@nil ent)). rewrite map_nth, nth_upd_eq; [reflexivity|].
+    rewrite (taxis_of_taxes c k a [] Ht). apply a_lt. }
+  pose proof (RepOpd_valid _ c k s v ess us R Hk RO) as HV. rewrite (taxis_of_taxes c k a [] Ht) in HV. fold es in HV.
+  destruct (join_labs_rep (fun gl l => Some (l ++ gl)) (fun x y => x ++ y) c k v _ es us Hk0
+              ltac:(intros g l0 r [= <-] j -> ->; now rewrite map_app)
+              _ _ gs l false Hlen Er HV Ej) as (L1 & L2 & L3).
+  replace (upd a (es ++ us) ess) with (upd_all (taxes c k) (es ++ us) ess) in * by (rewrite Ht; reflexivity).
+  eapply finish_new; eauto.
+Qed.
+Theorem append_refines s' : RepOpd (pol_adj (sch c k)) c k s v ess us -> op_append c s k v = OK s' ->
+  Rep c s' (upd a (es ++ us) ess) /\ no_loss s s'.
+Proof.
+  intros RO H. unfold op_append, pre_binary in H. destruct (shapes_compat _ _ _); [|discriminate].
+  destruct (resolve_all _ _ c k v O _) as [gs|] eqn:Er; [|discriminate]. cbn in H.
+  destruct (join_labs_inplace _ _ gs) as [l|] eqn:Ej; [|discriminate].
+  rewrite (cat_data_rep _ RO) in H. inversion H; subst s'.
+  assert (Hlen : length (pol_adj (sch c k)) = length (labs (ax_of s k))).
+  { rewrite (r_nf _ _ _ _ _ R k Hk). apply pol_lengths. }
+  assert (Hk0 : nth (taxis c k) (o_shape v) O = length us).
+  { rewrite (ro_shape _ _ _ _ _ _ _ RO). change O with (length (@nil ent)). rewrite map_nth, nth_upd_eq; [reflexivity|].
+    rewrite (taxis_of_taxes c k a [] Ht). apply a_lt. }
+  pose proof (RepOpd_valid _ c k s v ess us R Hk RO) as HV. rewrite (taxis_of_taxes c k a [] Ht) in HV. fold es in HV.
+  destruct (join_labs_rep (fun gl l => Some (l ++ gl)) (fun x y => x ++ y) c k v _ es us Hk0
+              ltac:(intros g l0 r [= <-] j -> ->; now rewrite map_app)
+              _ _ gs l true Hlen Er HV Ej) as (L1 & L2 & L3).
+  replace (upd a (es ++ us) ess) with (upd_all (taxes c k) (es ++ us) ess) in * by (rewrite Ht; reflexivity).
+  eapply finish_set; eauto.
+Qed.
+
+(** the index is not a bare scalar applied to an inner array axis (there numpy transposes the inserted block) *)
+Definition scalar_free (o : objarg) (d : nat) : Prop := match o, d with OInt _, S _ => False | _, _ => True end.
+Lemma np_insert_t_general d o sh t vsh vv : scalar_free o d ->
+  np_insert_t d o sh t vsh vv =
+  match plan_insert (nth d sh O) (nth d vsh O) o, bcast (upd d (nth d vsh O) sh) vsh vv with
+  | Some ps, Some v' => Some (t_pick d ps (t_cat d t v'), upd d (length ps) sh)
+  | _, _ => None end.
+Proof. unfold np_insert_t, scalar_free. destruct o; destruct d; try reflexivity; contradiction. Qed.
+
+Lemma insert_data_rep pols o t sh : RepOpd pols c k s v ess us -> scalar_free o a ->
+  np_insert_t a o (shape s) (data s) (o_shape v) (o_data v) = Some (t, sh) ->
+  exists ps, plan_insert (length es) (length us) o = Some ps /\
+             t = build (upd a (pick ps (es ++ us)) ess) val /\ sh = map (@length ent) (upd a (pick ps (es ++ us)) ess).
+Proof.
+  intros RO SF H. rewrite np_insert_t_general in H by assumption.
+  pose proof a_lt as Ha.
+  assert (Ek : nth a (o_shape v) O = length us).
+  { rewrite (ro_shape _ _ _ _ _ _ _ RO), (taxis_of_taxes c k a [] Ht). change O with (length (@nil ent)). now rewrite map_nth, nth_upd_eq. }
+  rewrite shape_a, Ek in H. destruct (plan_insert (length es) (length us) o) as [ps|] eqn:Ep; [|discriminate].
+  assert (Eb : bcast (upd a (length us) (shape s)) (o_shape v) (o_data v) = Some (o_data v)).
+  { rewrite (r_shape _ _ _ _ _ R), <- map_upd, (ro_shape _ _ _ _ _ _ _ RO), (ro_data _ _ _ _ _ _ _ RO), (taxis_of_taxes c k a [] Ht).
+    apply bcast_id. }
+  rewrite Eb in H. inversion H; subst t sh; clear H. exists ps. split; [reflexivity|].
+  rewrite (r_data _ _ _ _ _ R), (ro_data _ _ _ _ _ _ _ RO), (taxis_of_taxes c k a [] Ht), t_cat_build by assumption.
+  rewrite t_pick_build by (now rewrite upd_length). rewrite nth_upd_eq by assumption. rewrite upd_upd. fold es.
+  split; [reflexivity|]. rewrite (r_shape _ _ _ _ _ R), map_upd. f_equal.
+  symmetry. apply pick_length_lt. rewrite app_length. now apply plan_insert_ok with (o := o).
+Qed.
+
+Lemma np_insert_natural o ps j (g l r : larr) : plan_insert (length es) (length us) o = Some ps ->
+  np_insert o g l = Some r -> l = map (lbl k j) es -> g = map (lbl k j) us -> r = map (lbl k j) (pick ps (es ++ us)).
+Proof.
+  intros Hp H -> ->. unfold np_insert in H. rewrite !map_length, Hp in H. cbn in H. inversion H.
+  now rewrite <- map_app, pick_map.
+Qed.
+
+Theorem insert_refines o s' : RepOpd (pol_ins (sch c k)) c k s v ess us -> scalar_free o a -> op_insert c s k o v = OK s' ->
+  exists ps, plan_insert (length es) (length us) o = Some ps /\
+             Rep c s' (upd a (pick ps (es ++ us)) ess) /\ (drop_other c = false -> no_loss s s').
+Proof.
+  intros RO SF H. unfold op_insert, pre_binary in H. destruct (shapes_compat _ _ _); [|discriminate].
+  destruct (resolve_all _ _ c k v O _) as [gs|] eqn:Er; [|discriminate]. cbn in H.
+  rewrite (taxis_of_taxes c k a [] Ht) in H.
+  destruct (np_insert_t a o _ _ _ _) as [[t sh]|] eqn:Ed; [|discriminate].
+  destruct (join_labs _ _ gs) as [l|] eqn:Ej; [|discriminate].
+  destruct (insert_data_rep _ o t sh RO SF Ed) as (ps & Hp & Htt & Hsh). exists ps. split; [assumption|].
+  assert (Hlen : length (pol_ins (sch c k)) = length (labs (ax_of s k))).
+  { rewrite (r_nf _ _ _ _ _ R k Hk). apply pol_lengths. }
+  assert (Hk0 : nth (taxis c k) (o_shape v) O = length us).
+  { rewrite (ro_shape _ _ _ _ _ _ _ RO). change O with (length (@nil ent)). rewrite map_nth, nth_upd_eq; [reflexivity|].
+    rewrite (taxis_of_taxes c k a [] Ht). apply a_lt. }
+  pose proof (RepOpd_valid _ c k s v ess us R Hk RO) as HV. rewrite (taxis_of_taxes c k a [] Ht) in HV. fold es in HV.
+  rewrite (taxis_of_taxes c k a [] Ht) in Er, Hk0.
+  destruct (join_labs_rep (fun gl l => np_insert o gl l) (fun x y => pick ps (x ++ y)) c k v _ es us Hk0
+              ltac:(intros g l0 r Hi j Hl Hg; exact (np_insert_natural o ps j g l0 r Hp Hi Hl Hg))
+              _ _ gs l false Hlen Er HV Ej) as (L1 & L2 & L3).
+  replace (upd a (pick ps (es ++ us)) ess) with (upd_all (taxes c k) (pick ps (es ++ us)) ess) in * by (rewrite Ht; reflexivity).
+  eapply finish_new; eauto.
+Qed.
+Theorem incorp_refines o s' : RepOpd (pol_adj (sch c k)) c k s v ess us -> scalar_free o a -> op_incorp c s k o v = OK s' ->
+  exists ps, plan_insert (length es) (length us) o = Some ps /\
+             Rep c s' (upd a (pick ps (es ++ us)) ess) /\ no_loss s s'.
+Proof.
+  intros RO SF H. unfold op_incorp, pre_binary in H. destruct (shapes_compat _ _ _); [|discriminate].
+  destruct (resolve_all _ _ c k v O _) as [gs|] eqn:Er; [|discriminate]. cbn in H.
+  rewrite (taxis_of_taxes c k a [] Ht) in H.
+  destruct (np_insert_t a o _ _ _ _) as [[t sh]|] eqn:Ed; [|discriminate].
+  destruct (join_labs_inplace _ _ gs) as [l|] eqn:Ej; [|discriminate]. inversion H; subst s'.
+  destruct (insert_data_rep _ o t sh RO SF Ed) as (ps & Hp & Htt & Hsh). exists ps. split; [assumption|].
+  assert (Hlen : length (pol_adj (sch c k)) = length (labs (ax_of s k))).
+  { rewrite (r_nf _ _ _ _ _ R k Hk). apply pol_lengths. }
+  assert (Hk0 : nth (taxis c k) (o_shape v) O = length us).
+  { rewrite (ro_shape _ _ _ _ _ _ _ RO). change O with (length (@nil ent)). rewrite map_nth, nth_upd_eq; [reflexivity|].
+    rewrite (taxis_of_taxes c k a [] Ht). apply a_lt. }
+  pose proof (RepOpd_valid _ c k s v ess us R Hk RO) as HV. rewrite (taxis_of_taxes c k a [] Ht) in HV. fold es in HV.
+  rewrite (taxis_of_taxes c k a [] Ht) in Er, Hk0.
+  destruct (join_labs_rep (fun gl l => np_insert o gl l) (fun x y => pick ps (x ++ y)) c k v _ es us Hk0
+              ltac:(intros g l0 r Hi j Hl Hg; exact (np_insert_natural o ps j g l0 r Hp Hi Hl Hg))
+              _ _ gs l true Hlen Er HV Ej) as (L1 & L2 & L3).
+  replace (upd a (pick ps (es ++ us)) ess) with (upd_all (taxes c k) (pick ps (es ++ us)) ess) in * by (rewrite Ht; reflexivity).
+  eapply finish_set; eauto.
+Qed.
+End OneAxis.
 End Binary.
+
+(** * generic form = axis-specific form *)
+Lemma find_kind_bound l a : forall n k, find_kind l a n = Some k -> (n <= k < n + length l)%nat.
+Proof.
+  induction l as [|[kd axl] r IH]; intros n k H; cbn in H; [discriminate|].
+  destruct (existsb (Nat.eqb a) axl).
+  - inversion H. subst. cbn. lia.
+  - specialize (IH (S n) k H). cbn. lia.
+Qed.
+Lemma generic_eq_specific c s axis k o : dispatch c (Generic axis) = Some k -> step c s (Generic axis) o = step c s (Specific k) o.
+Proof.
+  intros H.
+  assert (Hk : (k < length (axs c))%nat).
+  { cbn in H. destruct (get_axis axis (ndim c)) as [a|]; [|discriminate]. apply find_kind_bound in H. lia. }
+  unfold step. rewrite H. unfold dispatch. apply Nat.ltb_lt in Hk. now rewrite Hk.
+Qed.
+(** the dispatch table: in every class every tensor axis of every labelled kind reaches that kind, by its
+    non-negative and by its negative number; every other axis number reaches nothing *)
+Definition dispatch_table_ok (c : cls) : bool :=
+  forallb (fun ka => forallb (fun a =>
+              opt_eqb Nat.eqb (dispatch c (Generic (Z.of_nat a))) (Some (fst ka)) &&
+              opt_eqb Nat.eqb (dispatch c (Generic (Z.of_nat a - Z.of_nat (ndim c)))) (Some (fst ka))) (snd (snd ka)))
+          (combine (seq 0 (length (axs c))) (axs c))
+  && forallb (fun a => existsb (fun kx => existsb (Nat.eqb a) (snd kx)) (axs c)
+                       || opt_eqb Nat.eqb (dispatch c (Generic (Z.of_nat a))) None) (seq 0 (ndim c))
+  && opt_eqb Nat.eqb (dispatch c (Generic (Z.of_nat (ndim c)))) None
+  && opt_eqb Nat.eqb (dispatch c (Generic (- Z.of_nat (ndim c) - 1))) None.
+Lemma dispatch_tables_ok : forallb dispatch_table_ok all_classes = true.
+Proof. vm_compute. reflexivity. Qed.
+
+(** * mutating = non-mutating counterpart *)
+Lemma new_axes_eq_set_axes c s k l : drop_other c = false -> new_axes c s k l = set_axes s k l.
+Proof. intros H. unfold new_axes, set_axes. apply map_ext. intros [j a]. cbn. now rewrite H. Qed.
+Theorem delete_then_remove c s k o s' : drop_other c = false -> op_delete c s k o = OK s' -> op_remove c s k o = OK s'.
+Proof.
+  intros Hd H. unfold op_delete in H. unfold op_remove.
+  destruct (un_data c s k _) as [[t sh]|]; [|discriminate]. destruct (un_labs s k _) as [l|]; [|discriminate].
+  apply construct_ok in H. subst s'. now rewrite new_axes_eq_set_axes.
+Qed.
+(** conversely the in-place result is what the constructor would accept whenever the label arrays fit the axes *)
+Theorem remove_then_delete c s k o s' : drop_other c = false -> op_remove c s k o = OK s' ->
+  op_delete c s k o = construct c (shape s') (data s') (axes s').
+Proof.
+  intros Hd H. unfold op_remove in H. unfold op_delete.
+  destruct (un_data c s k _) as [[t sh]|]; [|discriminate]. destruct (un_labs s k _) as [l|]; [|discriminate].
+  inversion H; subst s'. cbn. now rewrite new_axes_eq_set_axes.
+Qed.
+(** adjoin/append and insert/incorp: equal whenever no label array is supplied for a field the matrix lacks
+    (otherwise the non-mutating form hands the array to the constructor and the in-place form ignores it) *)
+Definition no_extra_labels (c : cls) (s : st) (k : nat) (v : operand) : Prop :=
+  forall j, nth j (labs (ax_of s k)) None = None -> eff_lab c k v j = None.
+Lemma resolve_all_none c k v k0 : forall pols owns j0 gs, resolve_all pols owns c k v j0 k0 = OK gs ->
+  (forall i, nth i owns None = None -> eff_lab c k v (j0 + i) = None) ->
+  forall f, join_labs f owns gs = join_labs_inplace f owns gs.
+Proof.
+  induction pols as [|p pols IH]; intros [|o owns] j0 gs H HN f; cbn in H; try (inversion H; reflexivity).
+  destruct (resolve p o (eff_lab c k v j0) k0) as [g|] eqn:Er; [|discriminate]. cbn in H.
+  destruct (resolve_all pols owns c k v (S j0) k0) as [r|] eqn:Ea; [|discriminate]. cbn in H. inversion H; subst gs.
+  unfold join_labs, join_labs_inplace. cbn.
+  assert (IHr : join_labs f owns r = join_labs_inplace f owns r).
+  { apply (IH owns (S j0) r Ea). intros i Hi. specialize (HN (S i) Hi). now replace (j0 + S i)%nat with (S j0 + i)%nat in HN by lia. }
+  unfold join_labs, join_labs_inplace in IHr. rewrite IHr.
+  destruct o as [lo|]; [reflexivity|]. specialize (HN 0%nat eq_refl). rewrite Nat.add_0_r in HN. unfold resolve in Er. rewrite HN in Er.
+  inversion Er. reflexivity.
+Qed.
+Theorem adjoin_then_append c s k v s' : drop_other c = false -> no_extra_labels c s k v ->
+  op_adjoin c s k v = OK s' -> op_append c s k v = OK s'.
+Proof.
+  intros Hd HN H. unfold op_adjoin in H. unfold op_append. unfold pre_binary in *.
+  destruct (shapes_compat _ _ _); [|discriminate].
+  destruct (resolve_all _ _ c k v O _) as [gs|] eqn:Er; [|discriminate]. cbn in *.
+  rewrite <- (resolve_all_none c k v _ _ _ O gs Er (fun i Hi => HN i Hi)).
+  destruct (join_labs _ _ gs) as [l|]; [|discriminate]. destruct (cat_data c s k v) as [t sh].
+  apply construct_ok in H. subst s'. now rewrite new_axes_eq_set_axes.
+Qed.
+(** insert and incorp differ only where insert_vrnt omits the "argument required" checks (hapalt, hapref) *)
+Theorem insert_then_incorp c s k o v s' : drop_other c = false -> no_extra_labels c s k v -> pol_ins (sch c k) = pol_adj (sch c k) ->
+  op_insert c s k o v = OK s' -> op_incorp c s k o v = OK s'.
+Proof.
+  intros Hd HN Hp H. unfold op_insert in H. unfold op_incorp. unfold pre_binary in *. rewrite Hp in H.
+  destruct (shapes_compat _ _ _); [|discriminate].
+  destruct (resolve_all _ _ c k v O _) as [gs|] eqn:Er; [|discriminate]. cbn in *.
+  rewrite <- (resolve_all_none c k v _ _ _ O gs Er (fun i Hi => HN i Hi)).
+  destruct (np_insert_t _ _ _ _ _ _) as [[t sh]|]; [|discriminate].
+  destruct (join_labs _ _ gs) as [l|]; [|discriminate].
+  apply construct_ok in H. subst s'. now rewrite new_axes_eq_set_axes.
+Qed.
+
+(** * where the code departs from the property (witnesses by computation) *)
+Definition w_val (l : list nat) : Z := match l with [r; c] => Z.of_nat (10 * r + c) | _ => 0 end.
+Definition w_lbl (k j : nat) (e : nat) : lab := Some (Z.of_nat (100 * k + e)).
+Definition w_ax (k nf : nat) (es : list nat) : axst := mkax (map (fun j => Some (map (w_lbl k j) es)) (seq 0 nf)) None None None None.
+
+(** 1. a bare integer index on the variant axis (array axis 1): the inserted block arrives transposed *)
+Definition w1_s : st := mkst [2; 3]%nat (build [[0; 1]; [0; 1; 2]]%nat w_val) [w_ax 0 2 [0; 1]%nat; w_ax 1 9 [0; 1; 2]%nat].
+Definition w1_v : operand := mkopd [2; 2]%nat (build [[0; 1]; [5; 6]]%nat w_val) [w_ax 0 2 [0; 1]%nat; w_ax 1 9 [5; 6]%nat] true (repeat None 9).
+Lemma scalar_insert_refuted :
+  Rep w_val w_lbl cDenseTaxaVariantMatrix w1_s [[0; 1]; [0; 1; 2]]%nat /\
+  RepOpd w_val w_lbl (pol_ins (sch cDenseTaxaVariantMatrix 1)) cDenseTaxaVariantMatrix 1 w1_s w1_v [[0; 1]; [0; 1; 2]]%nat [5; 6]%nat /\
+  (exists s', op_insert cDenseTaxaVariantMatrix w1_s 1 (OList [1]) w1_v = OK s' /\
+              data s' = build [[0; 1]; [0; 5; 6; 1; 2]]%nat w_val) /\
+  (exists s', op_insert cDenseTaxaVariantMatrix w1_s 1 (OInt 1) w1_v = OK s' /\
+              data s' <> build [[0; 1]; [0; 5; 6; 1; 2]]%nat w_val /\ data s' = T2 [[0; 5; 15; 1; 2]; [10; 6; 16; 11; 12]]).
+Proof.
+  split; [|split; [|split]].
+  - split; try reflexivity.
+    + intros k a H. destruct k as [|[|k]]; cbn in H;
+        [destruct H as [<-|[]]; reflexivity | destruct H as [<-|[]]; reflexivity | destruct k; destruct H].
+    + intros [|[|k]] Hk; cbn in Hk; try lia; reflexivity.
+    + intros [|[|k]] j l Hk E; cbn in Hk; try lia; cbn in E.
+      * do 2 (destruct j as [|j]; [cbn in E; inversion E; reflexivity|]). destruct j; discriminate.
+      * do 9 (destruct j as [|j]; [cbn in E; inversion E; reflexivity|]). destruct j; discriminate.
+  - split; try reflexivity. intros j Hj. cbn in Hj. do 9 (destruct j as [|j]; [cbn; reflexivity|]). lia.
+  - eexists. split; [vm_compute; reflexivity|vm_compute; reflexivity].
+  - eexists. split; [vm_compute; reflexivity|]. split; [vm_compute; discriminate|vm_compute; reflexivity].
+Qed.
+
+(** 2. insert_taxa of a square-taxa matrix acts on axis 0 only: the result is not square *)
+Definition w2_s : st := mkst [2; 2]%nat (build [[0; 1]; [0; 1]]%nat w_val) [w_ax 0 2 [0; 1]%nat].
+Definition w2_v : operand := mkopd [1; 1]%nat (build [[7]; [7]]%nat w_val) [w_ax 0 2 [7]%nat] true (repeat None 2).
+Lemma square_insert_refuted :
+  exists s', op_insert cDenseSquareTaxaMatrix w2_s 0 (OList [0]) w2_v = OK s' /\ shape s' = [3; 2]%nat /\
+             nth 0 (labs (ax_of s' 0)) None = Some (map (w_lbl 0 0) [7; 0; 1]%nat).
+Proof. eexists. split; [vm_compute; reflexivity|]. split; vm_compute; reflexivity. Qed.
+
+(** 3. select_taxa of DenseSquareTaxaTraitMatrix loses the trait labels; remove_taxa keeps them *)
+Definition w_val3 (l : list nat) : Z := match l with [r; c; t] => Z.of_nat (100 * r + 10 * c + t) | _ => 0 end.
+Definition w3_s : st := mkst [2; 2; 2]%nat (build [[0; 1]; [0; 1]; [0; 1]]%nat w_val3) [w_ax 0 2 [0; 1]%nat; w_ax 1 1 [0; 1]%nat].
+Lemma squaretaxatrait_drop_refuted :
+  exists s' s'', op_select cDenseSquareTaxaTraitMatrix w3_s 0 [1] = OK s' /\ op_remove cDenseSquareTaxaTraitMatrix w3_s 0 (OInt 0) = OK s'' /\
+             data s' = data s'' /\ labs (ax_of s' 0) = labs (ax_of s'' 0) /\
+             labs (ax_of w3_s 1) = [Some (map (w_lbl 1 0) [0; 1]%nat)] /\ labs (ax_of s'' 1) = [Some (map (w_lbl 1 0) [0; 1]%nat)] /\
+             labs (ax_of s' 1) = [None] /\ ~ no_loss w3_s s'.
+Proof.
+  eexists. eexists. repeat split; try (vm_compute; reflexivity).
+  intros H. destruct (H 1%nat 0%nat _ eq_refl) as [l E]. vm_compute in E. discriminate.
+Qed.
